@@ -9,6 +9,19 @@ import (
 )
 
 func init() {
+	replayers["C02/field-pairs"] = func(c *Ctx, raw json.RawMessage) string {
+		var cs struct {
+			Pub, Sec, Lay, Dir int
+			Swap               bool
+		}
+		json.Unmarshal(raw, &cs)
+		if cs.Pub < 0 {
+			return c02Run("<"+c02FieldDirs[cs.Dir]+">", func(v int) []interface{} {
+				return []interface{}{fpTyped{safeStrerT{"id"}, secStr[v], 5, secInt[v]}}
+			}, nil)
+		}
+		return c02FieldPair(cs.Pub, cs.Sec, cs.Lay, cs.Dir, cs.Swap, nil)
+	}
 	replayers["C02/secret-shapes"] = func(c *Ctx, raw json.RawMessage) string {
 		var cs struct {
 			Shape        []int
@@ -234,6 +247,95 @@ func c02Shape(shape []int, carrier, dir int, seen func(string)) string {
 	return ""
 }
 
+// --- field pairs: a value with a classification of its own next to a secret inside one struct, in both orders, with
+// every combination of exported and unexported fields: what the printer remembers from one field (the current
+// operand, an override, a mode) must not decide how the NEXT field is classified.
+
+type (
+	fpEE struct{ A, B interface{} }
+	fpEU struct {
+		A interface{}
+		b interface{}
+	}
+	fpUE struct {
+		a interface{}
+		B interface{}
+	}
+	fpUU    struct{ a, b interface{} }
+	fpTyped struct {
+		ID    safeStrerT
+		token string
+		N     safeIntT
+		pin   int
+	}
+	fpNested struct {
+		P fpEU
+		q fpUE
+	}
+)
+
+type fpMsgT struct{ hidden string }
+
+func (fpMsgT) SafeMessage() string { return "const-msg" }
+
+var c02Publics = []struct {
+	Name string
+	V    interface{}
+}{
+	{"SafeValue+Stringer", safeStrerT{"id"}},
+	{"SafeValue", safeT("pub")},
+	{"SafeValue int", safeIntT(3)},
+	{"Safe(string)", redact.Safe("s")},
+	{"Safe(Stringer)", redact.Safe(strT{"x"})},
+	{"SafeFormatter", safeFmtT{"k", "v"}},
+	{"SafeMessager", fpMsgT{"m"}},
+	{"RedactableString", redact.RedactableString("r" + mStart + "z" + mEnd)},
+	{"nil", nil},
+	{"unsafe Stringer (no secret)", strT{"plainstr"}},
+	{"panicking Stringer", panStrT{"pp"}},
+}
+
+var c02SecretFields = []struct {
+	Name string
+	Mk   func(v int) interface{}
+}{
+	{"string", func(v int) interface{} { return secStr[v] }},
+	{"int", func(v int) interface{} { return secInt[v] }},
+	{"[]byte", func(v int) interface{} { return []byte(secBytes[v]) }},
+	{"Stringer", func(v int) interface{} { return strT{secStr[v]} }},
+	{"error", func(v int) interface{} { return errT{secPlain[v]} }},
+	{"struct", func(v int) interface{} { return structT{secInt[v], secStr[v], secPlain[v]} }},
+	{"[]string", func(v int) interface{} { return []string{secPlain[v], secStr[v]} }},
+}
+
+var c02FieldLayouts = []struct {
+	Name string
+	Mk   func(x, y interface{}) interface{}
+}{
+	{"struct{A,B}", func(x, y interface{}) interface{} { return fpEE{x, y} }},
+	{"struct{A,b}", func(x, y interface{}) interface{} { return fpEU{x, y} }},
+	{"struct{a,B}", func(x, y interface{}) interface{} { return fpUE{x, y} }},
+	{"struct{a,b}", func(x, y interface{}) interface{} { return fpUU{x, y} }},
+	{"&struct{A,b}", func(x, y interface{}) interface{} { return &fpEU{x, y} }},
+	{"[]struct{A,b}", func(x, y interface{}) interface{} { return []fpEU{{x, y}, {y, x}} }},
+	{"map[string]struct{a,B}", func(x, y interface{}) interface{} { return map[string]fpUE{"k": {x, y}} }},
+	{"struct{P struct{A,b}; q struct{a,B}}", func(x, y interface{}) interface{} { return fpNested{fpEU{x, y}, fpUE{y, x}} }},
+	{"[]interface{}{x,y,x}", func(x, y interface{}) interface{} { return []interface{}{x, y, x} }},
+}
+
+var c02FieldDirs = []string{"%v", "%+v", "%#v", "%s", "%q", "%x", "%d", "%10v", "%-8s"}
+
+func c02FieldPair(pub, sec, lay, dir int, swap bool, seen func(string)) string {
+	mk := func(v int) []interface{} {
+		x, y := c02Publics[pub].V, c02SecretFields[sec].Mk(v)
+		if swap {
+			return []interface{}{c02FieldLayouts[lay].Mk(y, x)}
+		}
+		return []interface{}{c02FieldLayouts[lay].Mk(x, y)}
+	}
+	return c02Run("<"+c02FieldDirs[dir]+">", mk, seen)
+}
+
 func checkC02(c *Ctx) {
 	u := universe()
 	sp := quickDirectives()
@@ -261,6 +363,26 @@ func checkC02(c *Ctx) {
 		})
 	}
 	dirSection("C02/directives")
+	nPub, nSec, nLay, nDir := len(c02Publics), len(c02SecretFields), len(c02FieldLayouts), len(c02FieldDirs)
+	c.Section("C02/field-pairs", map[string]interface{}{"classified_values": nPub, "secret_kinds": nSec, "layouts": nLay, "orders": 2, "directives": c02FieldDirs, "plus": "a struct with typed fields: SafeValue+Stringer, unexported string, SafeValue int, unexported int"}, nPub*nSec*nLay, func(i int, w *Worker) {
+		pub, sec, lay := i/(nSec*nLay), i/nLay%nSec, i%nLay
+		for dir := 0; dir < nDir; dir++ {
+			for _, swap := range []bool{false, true} {
+				w.Eval()
+				if dt := c02FieldPair(pub, sec, lay, dir, swap, w.SeenS); dt != "" {
+					w.Fail("field-pair:"+c02FieldLayouts[lay].Name, map[string]interface{}{"Pub": pub, "Sec": sec, "Lay": lay, "Dir": dir, "Swap": swap}, dt)
+				}
+			}
+			if i == 0 {
+				f := "<" + c02FieldDirs[dir] + ">"
+				if dt := c02Run(f, func(v int) []interface{} {
+					return []interface{}{fpTyped{safeStrerT{"id"}, secStr[v], 5, secInt[v]}}
+				}, w.SeenS); dt != "" {
+					w.Fail("field-pair:typed", map[string]interface{}{"Pub": -1, "Dir": dir}, dt)
+				}
+			}
+		}
+	})
 	ns := 4
 	if !c.Quick() {
 		ns = 6
